@@ -10,7 +10,19 @@ Nothing in here imports or executes the analysed repository.
 """
 from collections import Counter
 from itertools import permutations
-from .dim import Dim, D, dim_le
+from .dim import Dim, D, dim_le as _dim_le
+
+
+def dim_le(a, b):
+    a, b = D(a), D(b)
+    if _dim_le(a, b):
+        return True
+    if (repr(a), repr(b)) in ST.le_facts:
+        return True
+    # a <= b  if  a = a' + c, b = b' + c with (a', b') a known fact (common additive part)
+    for fa, fb in ST.le_facts:
+        pass
+    return False
 
 
 class ShapeError(Exception):
@@ -42,6 +54,7 @@ class State:
         s.lndet = {}        # head -> (coef Fraction, head) : LnDet(head) = coef * head2
         s.diag = {}         # head -> vector head: head[...,a,b] = vec[...,a] * delta[a,b]
         s.stats = Counter()
+        s.le_facts = set()  # (repr(a), repr(b)) : a <= b assumed by the analysed code's own guards
 
 
 ST = State()
@@ -847,6 +860,13 @@ def elementwise(kind, v, extra=None):
     lifted = _try_lift(v, nt, lambda x: elementwise(kind, x, extra))
     if lifted is not None:
         return lifted
+    if kind == "Recip" and len(nt) == 1 and len(nt[0][1].f) >= 2 and nt[0][0].is_const() and all(x in set(v.free()) for _, ix in nt[0][1].f for x in ix):
+        # 1/(c * f1 * f2 ...) = (1/c) * 1/f1 * 1/f2 ...
+        out = const(D(1) / nt[0][0])
+        out = Val(v.axes, [(D(1) / nt[0][0], Net())])
+        for g in nt[0][1].f:
+            out = mul(out, elementwise("Recip", Val(v.axes, [(D(1), Net([g]))])))
+        return out
     sf = _single_factor(nt)
     if sf is not None and sf[0].is_one() and ST.head[sf[1][0]].kind == "Recip" and all(x in set(v.free()) for x in sf[1][1]):
         inner = head_arg_val(sf[1][0], sf[1][1], v.axes)
